@@ -9,14 +9,19 @@
                 malloc(len) : NULL`, malloc assumed not to fail);
      pending  = outbuffer[0 .. outbuffer_cur);
      has_func = (outfunc != NULL);   has_fd = (outfd != -1).
-   Bytes are Z in 0..255.  What is *delivered* is a list of chunks: one per call of the
-   output function, or one per write(2) on the descriptor. *)
+   Bytes are Z in 0..255.  What is *delivered* is a list of chunks, each tagged with the
+   sink that received it: one per call of the output function, or one per write(2) on the
+   descriptor. *)
 From Coq Require Import ZArith List Bool.
 Import ListNotations.
 Local Open Scope Z_scope.
 
 Definition byte := Z.
 Definition chunk := list byte.
+
+(* where a chunk goes *)
+Inductive sink := SFunc | SFd.
+Definition tchunk := (sink * chunk)%type.
 
 Record obuf := mkOB { cap : Z; pending : list byte; has_func : bool; has_fd : bool }.
 
@@ -36,14 +41,21 @@ Arguments OutOfFuel {A}.
 Definition zlen {A} (l : list A) : Z := Z.of_nat (length l).
 
 (* `if(tt->outfunc) call outfunc(tt, p, n, user); else if(tt->outfd != -1) write(tt->outfd, p, n);`
+   This preference -- the function over the descriptor -- is written out at TWO places in
+   term.c: in tickit_term_flush and in the unbuffered branch of write_str; both are modelled
+   by this one definition (a terminal may have both an output function and a descriptor).
    A write(2) of zero bytes transfers nothing, so it is no chunk. *)
-Definition deliver (s : obuf) (c : chunk) : list chunk :=
-  if has_func s then [c]
-  else if has_fd s then (match c with [] => [] | _ :: _ => [c] end)
+Definition deliver (s : obuf) (c : chunk) : list tchunk :=
+  if has_func s then [(SFunc, c)]
+  else if has_fd s then (match c with [] => [] | _ :: _ => [(SFd, c)] end)
   else [].
 
+(* the sink that output goes to in the present configuration *)
+Definition active (s : obuf) : option sink :=
+  if has_func s then Some SFunc else if has_fd s then Some SFd else None.
+
 (* tickit_term_flush *)
-Definition flush (s : obuf) : obuf * list chunk :=
+Definition flush (s : obuf) : obuf * list tchunk :=
   match pending s with
   | [] => (s, [])                                       (* if(outbuffer_cur == 0) return; *)
   | _ :: _ => (with_pending s [], deliver s (pending s))   (* deliver; outbuffer_cur = 0 *)
@@ -58,8 +70,8 @@ Fixpoint c_strlen (mem : list byte) : option nat :=
 
 (* the `while(len > 0)` loop of write_str, buffered branch.  [str] is exactly the
    remaining len bytes; [out] is the list of chunks delivered so far in REVERSE order. *)
-Fixpoint write_loop (fuel : nat) (s : obuf) (out : list chunk) (str : list byte)
-  : result (obuf * list chunk) :=
+Fixpoint write_loop (fuel : nat) (s : obuf) (out : list tchunk) (str : list byte)
+  : result (obuf * list tchunk) :=
   match str with
   | [] => Ok (s, out)
   | _ :: _ =>
@@ -89,7 +101,7 @@ Definition req_bytes (mem : list byte) (len : Z) : option (list byte) :=
   else None.
 
 (* write_str *)
-Definition write_str (s : obuf) (mem : list byte) (len : Z) : result (obuf * list chunk) :=
+Definition write_str (s : obuf) (mem : list byte) (len : Z) : result (obuf * list tchunk) :=
   match req_bytes mem len with
   | None => Fault
   | Some data =>
@@ -105,39 +117,40 @@ Definition write_str (s : obuf) (mem : list byte) (len : Z) : result (obuf * lis
 (* write_vstrf: [fmted] is what vsnprintf produces (formatting itself is not modelled);
    both the 64-byte stack buffer and the tmpbuffer are NUL-terminated after it, and
    write_str is called with len = strlen-independent return value of vsnprintf. *)
-Definition write_strf (s : obuf) (fmted : list byte) : result (obuf * list chunk) :=
+Definition write_strf (s : obuf) (fmted : list byte) : result (obuf * list tchunk) :=
   write_str s (fmted ++ [0]) (zlen fmted).
 
 (* tickit_term_set_output_buffer: whatever is pending is discarded *)
 Definition set_output_buffer (s : obuf) (len : Z) : obuf :=
   mkOB len [] (has_func s) (has_fd s).
 
-(* tickit_term_set_output_func with a non-NULL function (the old function gets one
-   call with bytes == NULL, which is not a chunk); pending bytes stay *)
-Definition set_output_func (s : obuf) : obuf := mkOB (cap s) (pending s) true (has_fd s).
-(* tickit_term_set_output_fd with a valid descriptor *)
-Definition set_output_fd (s : obuf) : obuf := mkOB (cap s) (pending s) (has_func s) true.
+(* tickit_term_set_output_func: [b] = a function is given (false: NULL, the function is
+   removed).  The old function gets one call with bytes == NULL, which is not a chunk;
+   pending bytes stay in the buffer. *)
+Definition set_output_func (s : obuf) (b : bool) : obuf := mkOB (cap s) (pending s) b (has_fd s).
+(* tickit_term_set_output_fd: [b] = a valid descriptor is given (false: -1) *)
+Definition set_output_fd (s : obuf) (b : bool) : obuf := mkOB (cap s) (pending s) (has_func s) b.
 
 Inductive op :=
 | OWrite (mem : list byte) (len : Z)   (* tickit_termdrv_write_str(ttd, mem, len) *)
 | OWritef (fmted : list byte)          (* tickit_termdrv_write_strf(ttd, fmt, ...) producing fmted *)
 | OFlush
 | OSetBuf (n : Z)
-| OSetFunc
-| OSetFd.
+| OSetFunc (b : bool)
+| OSetFd (b : bool).
 
-Definition step (s : obuf) (o : op) : result (obuf * list chunk) :=
+Definition step (s : obuf) (o : op) : result (obuf * list tchunk) :=
   match o with
   | OWrite mem len => write_str s mem len
   | OWritef f => write_strf s f
   | OFlush => Ok (flush s)
   | OSetBuf n => if n <? 0 then Fault else Ok (set_output_buffer s n, [])
-  | OSetFunc => Ok (set_output_func s, [])
-  | OSetFd => Ok (set_output_fd s, [])
+  | OSetFunc b => Ok (set_output_func s b, [])
+  | OSetFd b => Ok (set_output_fd s b, [])
   end.
 
 (* a whole history; the result lists the chunks delivered by each operation *)
-Fixpoint run (s : obuf) (ops : list op) : result (obuf * list (list chunk)) :=
+Fixpoint run (s : obuf) (ops : list op) : result (obuf * list (list tchunk)) :=
   match ops with
   | [] => Ok (s, [])
   | o :: r =>
